@@ -333,10 +333,10 @@ def style_features():
             e.add_animation_step(step(prop, 1, 2, v))
           out.append(Feature(style_label(prop, v, "set"), f_set,
                              note=f"animation step {prop.__name__} = {v!r} over [1, 2) on {tk}" + (f" which specifies {alt!r}" if deq else "")))
-      if not deq:
-        def f_init(h, cfg, prop=prop, v=v):
-          h.doc.put_initial_value(prop, v)
-        out.append(Feature(style_label(prop, v, "init"), f_init, note=f"initial value {prop.__name__} = {v!r}"))
+      def f_init(h, cfg, prop=prop, v=v):
+        h.doc.put_initial_value(prop, v)
+      out.append(Feature(style_label(prop, v, "init"), f_init, note=f"initial value {prop.__name__} = {v!r}" +
+                         (" (equal to the default: only the writer and the reader are exercised)" if deq else "")))
   return out
 
 
@@ -437,6 +437,7 @@ def _ruby(h, shape):
 
 
 RUBY_SHAPES = [("ruby[Rb,Rp,Rt,Rp]", ["Rb", "Rp", "Rt", "Rp"]), ("ruby[Rb,Rp,Rt,Rp]:rp-without-span", ["Rb", "Rp0", "Rt", "Rp0"]),
+               ("ruby[Rb,Rp,Rt,Rp]:one-rp-without-span", ["Rb", "Rp0", "Rt", "Rp"]),
                ("ruby[Rbc,Rtc]", [("Rbc", ["Rb"]), ("Rtc", ["Rt"])]), ("ruby[Rbc,Rtc,Rtc]", [("Rbc", ["Rb", "Rb"]), ("Rtc", ["Rt", "Rt"]), ("Rtc", ["Rt"])]),
                ("rtc[Rp,Rt,Rp]", [("Rbc", ["Rb"]), ("Rtc", ["Rp", "Rt", "Rp"])]), ("rtc[Rp,Rt,Rt,Rp]", [("Rbc", ["Rb", "Rb"]), ("Rtc", ["Rp", "Rt", "Rt", "Rp"])])]
 
@@ -544,7 +545,7 @@ def context_features():
 
 def param_features():
   out = []
-  for rows, cols in ((15, 32), (23, 40), (1, 1), (32, 15), (100, 200)):
+  for rows, cols in ((15, 32), (23, 40), (1, 1), (32, 15), (100, 200), (15, 40), (23, 32)):
     def f(h, cfg, rows=rows, cols=cols):
       h.doc.set_cell_resolution(m.CellResolutionType(rows=rows, columns=cols))
       h.Span.set_style(SP.FontSize, L(2, U.c))
@@ -670,10 +671,17 @@ def enrich(doc, r):
     if isinstance(e.parent(), (m.Ruby, m.Rbc, m.Rtc)) and e.get_end() is not None and (e.get_begin() or 0) >= e.get_end():
       e.set_end(None)
     # ... and ruby bases / texts without any character (TTML gives them an empty interval)
-    if isinstance(e, (m.Rb, m.Rt)):
+    if isinstance(e, (m.Rb, m.Rt, m.Rp)):
       txts = [x for x in e.dfs_iterator() if isinstance(x, m.Text)]
       if txts and not any(x.get_text() for x in txts):
         txts[0].set_text("x")
+      elif not txts:
+        sps = [x for x in e.dfs_iterator() if isinstance(x, m.Span)]
+        if not sps:
+          sps = [m.Span(doc)]
+          sps[0].set_id(e.get_id() + "s")
+          e.push_child(sps[0])
+        sps[-1].push_child(m.Text(doc, "("))
   for e in els:
     if r.random() < 0.06 and not isinstance(e, m.Br):
       nl = r.choice(["fr", "de-CH", ""])
@@ -741,6 +749,8 @@ def strip(doc, exclude):
     # make the implied end explicit (same presentation: an element without active content is not presented)
     def implied(e):
       """-> end of e relative to its parent as TTML implies it from the content, None when indefinite"""
+      if isinstance(e, m.Text) and not e.get_text():
+        return 0          # written as nothing
       if isinstance(e, (m.Br, m.Text)):
         return None
       ends = [implied(c) for c in e]
@@ -898,7 +908,9 @@ def roundtrip(rec, build, cfg_name, label, replay_args, note=""):
     try:
       b = ISD.from_model(back, t)
     except Exception as e:  # pylint: disable=broad-except
-      rec.evaluated(C_SNAP, None)
+      rec.evaluated(C_SNAP, None, None, False)
+      if isinstance(e, ValueError) and ("ruby" in str(e).lower() or "rtc" in str(e).lower()):
+        continue      # the same known finding on the re-read side (an implied end makes a part of the ruby inactive)
       return fail("snapshot", "reread-isd-raises:" + type(e).__name__, C_SNAP, f"t={t}: ISD.from_model raises {e!r} on the re-read document only",
                   observed=text[:1500])
     va, vb = S.isd_view(a), S.isd_view(b)
